@@ -109,6 +109,9 @@ func indentObject(
 	prefix []byte,
 	indentBytes []byte,
 	escape bool) ([]byte, int64, error) {
+	if indentNum >= maxNestingDepth {
+		return nil, 0, errors.ErrExceededMaxDepth(src[cursor], cursor)
+	}
 	if src[cursor] == '{' {
 		dst = append(dst, '{')
 	} else {
@@ -173,6 +176,9 @@ func indentArray(
 	prefix []byte,
 	indentBytes []byte,
 	escape bool) ([]byte, int64, error) {
+	if indentNum >= maxNestingDepth {
+		return nil, 0, errors.ErrExceededMaxDepth(src[cursor], cursor)
+	}
 	if src[cursor] == '[' {
 		dst = append(dst, '[')
 	} else {
